@@ -23,8 +23,9 @@ CFG = {
                    "Retention deletes nothing in these runs (TTL 30 d; the cron job and the rotation task do run). Value fidelity of restored rows is C01's subject: rows are attributed by their unique write id and timestamp. "
                    "Disk errors are injected only into link/mkdir calls below the snapshots directory"),
     "budget": {"quick": 60, "thorough": 1200},
+    "det_n": {"quick": 24, "thorough": 64},
     "rule": ("each seed draws engine schema (1-2 shards), flush timeout 1/3/10 s, merge fan-in, 2-9 history operations (batch of 1-60 rows spanning 1 s..2 days / advance 0.5 s..26 h), an optional idle period of 75-200 min "
-             "(older segments idle-close), 0-2 late batches, an armed gate subset (0/15/30/60 % of the sites, by salted hash), 0-2 concurrent writers, 0-3 clock advances inside the race, optionally one injected "
+             "(older segments idle-close), 0-2 late batches, gates off (1 in 4) or every site armed with run-until-yield bursts of 1/4/13/51 gates and a step limit of 40/150/400/1000, 0-2 concurrent writers, 0-3 clock advances inside the race, optionally one injected "
              "EIO on the k-th link or mkdir of the snapshot, 0-2 batches after the snapshot returned, and the restore method. Non-trivial = a snapshot was reported successful, restored and compared, or an injected "
              "fault fired; distinct = canonical event-log digests"),
     "expected_probes": ["reach.snapshot_ok", "reach.restored_and_compared", "reach.restored_nonempty", "reach.snapshot_raced_writer", "reach.snapshot_raced_maintenance",
